@@ -203,7 +203,8 @@ def check_find(cfg, w, rep, lf):
         if term.discr.place is None:
             return None
         for o in prog.resolve_pl(cl, term.discr.place, IDENT):
-            if o.kind == "call" and o.callee is not None and o.callee.path == "std::cmp::PartialEq::eq":
+            if o.kind == "call" and o.callee is not None and o.callee.path in ("std::cmp::PartialEq::eq", "std::cmp::PartialEq::ne"):
+                eqv, nev = (1, 0) if o.callee.path.endswith("::eq") else (0, 1)
                 a = prog.resolve_op(o.body, o.term.args[0], IDENT, o.blk)
                 c = prog.resolve_op(o.body, o.term.args[1], IDENT, o.blk)
                 sides = [a, c]
@@ -214,8 +215,8 @@ def check_find(cfg, w, rep, lf):
                 def is_lookup_key(s):
                     return s and is_param(prog, s, g, kidx)
                 if (is_entry_key(a) and is_lookup_key(c)) or (is_entry_key(c) and is_lookup_key(a)):
-                    return ("key_eq", {switch_target(term, 1): True, switch_target(term, 0): False})
-                return ("key_eq?", {switch_target(term, 1): "other-comparison:%s" % sorted(map(repr, a | c))[:2], switch_target(term, 0): False})
+                    return ("key_eq", {switch_target(term, eqv): True, switch_target(term, nev): False})
+                return ("key_eq?", {switch_target(term, eqv): "other-comparison:%s" % sorted(map(repr, a | c))[:2], switch_target(term, nev): False})
             if o.kind == "discr":
                 pl = o.info.place
                 src = prog.resolve_lifted(cl, pl.local, norm_path(pl), IDENT, at=o.blk)
